@@ -1032,7 +1032,16 @@ MUTATING = {"append", "extend", "insert", "pop", "remove", "clear", "sort", "rev
             "popitem", "add", "discard", "__setitem__", "__delitem__"}
 
 
+def _no_mutation_inside_comprehension(I, recv, name):
+    """the comprehension rule evaluates the element expression ONCE, for an arbitrary element: an element expression that changes a
+    symbolic container in place (an accumulator that outlives the comprehension) is outside that rule - undecided, not mis-modelled"""
+    if getattr(I.p, "in_comprehension", False) and (name in MUTATING or name in ("add", "discard")):
+        raise Unsupported(f"in-place .{name}() on a symbolic container inside a comprehension (the comprehension rule covers pure element expressions)")
+
+
 def call_sym_method(I, recv, name, args, kwargs):
+    if isinstance(recv, (MSet, V.DDEntry, MList, MDict)):
+        _no_mutation_inside_comprehension(I, recv, name)
     if isinstance(recv, MSet):
         if name == "add":
             recv.elems = V.vsnoc(recv.elems, lower(args[0]))
